@@ -329,7 +329,7 @@ impl Exec {
         }
         if let Stop::Oversize { site, field, value } = &w.stop {
             let key = site_key(*site);
-            if !run_known {
+            if !run_known && is_listed_known("C27", &key) {
                 return self.exclude(&key);
             }
             let o = self.worker.lock().unwrap().exec(rec.id(), data);
@@ -400,7 +400,7 @@ impl Exec {
             }
         }
         if let Some(key) = known.first() {
-            if !run_known {
+            if !run_known && is_listed_known("C27", key) {
                 return self.exclude(key);
             }
             let o = self.worker.lock().unwrap().exec(OP_ARCHIVE, &archive_payload(calls, probes, file));
